@@ -1,13 +1,103 @@
 """C09 the '>' (last) operator."""
 from harness.runner import PropBase, Case
-from harness import gen
+from harness import gen, core
 from props import listsearch as ls
+from props.c01 import natural
 
 class C09(PropBase):
     id = 'C09'
     rule = ("universes with several versions / names per group (names containing '-', '.', '+', '_') x searches with '>' at any position "
-            "(optionally a second '>' further right, '*', aliases, '**' elsewhere); non-trivial = at least one group answered; distinct by (universe, search)")
-    partial_note = 'FindInList part; FindInPaths / FindInAll / get_last parts are exercised by the file-system checks (C11, C18)'
+            "(optionally a second '>' further right, '*', aliases, '**' elsewhere) on FindInList; the same over real trees on FindInPaths, FindInAll (find and find_one), "
+            "FindInList and Sid.get_last (version families with files of several types and states, names with digit runs); non-trivial = at least one group answered; distinct by (universe, search)")
+    partial_note = 'theorems are about the generic sorted search (any finder); the agreement of the three finders and get_last is oracle + correspondence'
+    def confdir(self, ws):
+        return core.make_fs_confdir(ws)
+    def fs_cases(self, rng, ctx, tier, v):
+        """the same entities as a real tree: FindInPaths, FindInAll (find and find_one), FindInList and Sid.get_last on '>' searches"""
+        from props.c11 import C11
+        from props.c05 import C05
+        default = ctx['rawd']['default_path_config'] or ctx['rawd']['path_configs'][0][0]
+        self.with_path = set(k for pc in ctx['rawd']['path_configs'] if pc[0] == default for k, _ in dict((k, vv) for k, vv in pc[1])['templates'])
+        ok = lambda e: bool(natural(v, e)) and natural(v, e)[0] in self.with_path and not any(g in v.alias for g in e.split('/'))
+        out = []
+        nu, ns = (3, 14) if tier == 'quick' else (30, 40)
+        fam = {}
+        for t in v.order:
+            if t in self.with_path:
+                fam.setdefault(tuple(k for k, _ in v.types[t]), []).append(t)
+        fams = [g for g in fam.values() if len(g) > 1 and len(v.types[g[0]]) > 6]
+        for ui in range(nu):
+            leafs = [e for e in C11().leafs(rng, v, rng.randint(3, 6)) if ok(e)]
+            # a family of versions under one task: files of several types / states, not every file in every version
+            if fams:
+                g = rng.choice(fams)
+                base = C05().concrete(rng, v, g[0]).split('/')
+                vi = max(i for i, (k, e) in enumerate(v.types[g[0]]) if e and '\\d' in e and i < len(base) - 1) if any(e and '\\d' in e for k, e in v.types[g[0]][:-1]) else None
+                if vi is not None:
+                    for _ in range(rng.randint(4, 8)):
+                        t = rng.choice(g)
+                        e = list(base)
+                        e[vi] = v.value(v.types[t][vi][1], rng)[:-1] + rng.choice('1239')
+                        for j in range(vi + 1, len(e) - 1):
+                            e[j] = v.value(v.types[t][j][1], rng)
+                        e[-1] = v.value(v.types[t][-1][1], rng)
+                        if ok('/'.join(e)):
+                            leafs.append('/'.join(e))
+            # free names with digit runs of different lengths / a digit next to '-'
+            more = []
+            for e in leafs[:3]:
+                n = natural(v, e)
+                opens = [i for i, (k, ex) in enumerate(n and v.types[n[0]] or []) if v.alternatives(ex) is None]
+                if opens:
+                    i = rng.choice(opens)
+                    for val in rng.choice([['n9', 'n10'], ['a-9', 'a-10'], ['dust9', 'dust-1']]):
+                        segs = e.split('/'); segs[i] = val
+                        if ok('/'.join(segs)):
+                            more.append('/'.join(segs))
+            leafs = leafs + more
+            if not leafs:
+                continue
+            out.append(Case('fs_reset', [], 'setup', {}))
+            L = set()
+            for e in leafs:
+                out.append(Case('w_create', ['', e, []], 'setup', {}))
+                parts = e.split('/')
+                keys = [k for k, _ in natural(v, e)[1]]
+                for i in range(1, len(parts) + 1):
+                    a = '/'.join(parts[:i])
+                    na = natural(v, a)
+                    if na and na[0] in self.with_path and [k for k, _ in na[1]] == keys[:i]:
+                        L.add(a)
+            L = sorted(L)
+            for _ in range(ns):
+                base = rng.choice(leafs).split('/')
+                i = rng.randrange(1, len(base))
+                q = list(base); q[i] = '>'
+                for j in range(i + 1, len(q)):
+                    if rng.random() < 0.6:
+                        q[j] = '*'
+                for j in range(1, i):
+                    if rng.random() < 0.2:
+                        q[j] = '*'
+                if rng.random() < 0.3 and v.alias and i < len(q) - 1:
+                    als = [al for al, ms in v.alias.items() if base[-1] in ms]
+                    if als:
+                        q[-1] = rng.choice(als)
+                q = '/'.join(q)
+                m = {'u': ui, 'q': q, 'fs': True}
+                out.append(Case('find_paths', [default, q], 'fsfind', dict(m, finder='paths')))
+                out.append(Case('find_all', [q], 'fsfind', dict(m, finder='all')))
+                out.append(Case('find_all_one', [q], 'fsfind', dict(m, finder='all_one')))
+                out.append(Case('find_all_raw', [q], 'fsfind', dict(m, finder='all_raw')))
+                out.append(Case('find_list', [L, q], 'fsfind', dict(m, finder='list')))
+                out.append(Case('unfold', [q, '0', '0'], 'unfold', {}))
+            for _ in range(ns // 2):
+                e = rng.choice(leafs)
+                n = natural(v, e)
+                k, _ = rng.choice(n[1][1:])
+                out.append(Case('get_last', [['s', e], k], 'get_last', {'u': ui, 'sid': e, 'key': k, 'pos': [kk for kk, _ in n[1]].index(k), 'L': L}))
+        out.append(Case('fs_reset', [], 'setup', {}))
+        return out
     def gt_search(self, rng, v, items):
         cands = [s for s in items if s.count('/') >= 1]
         base = rng.choice(cands) if cands else v.sid(v.any_type(rng), rng)
@@ -38,23 +128,86 @@ class C09(PropBase):
             for _ in range(ns):
                 q = self.gt_search(rng, v, items)
                 out.append(Case('find_list', [items, q], 'find', {}))
+        out.extend(self.fs_cases(rng, ctx, tier, v))
         return out
     def phase2(self, rng, ctx, cases, impl_out, tier):
         seen = set(); more = []
         for c in cases:
+            if c.op != 'find_list' or c.stream != 'find':
+                continue
             q = c.args[1]
             if q not in seen:
                 seen.add(q)
                 more.append(Case('unfold', [q, '0', '0'], 'unfold', {}))
         return more
+    def expected(self, items, forms):
+        positions = set(f.split('/').index('>') for f in forms if '>' in f.split('/'))
+        if len(positions) != 1 or any('>' not in f.split('/') for f in forms):
+            return None          # the property speaks of '>' at one position
+        index = positions.pop()
+        matching = []
+        for e in items:
+            if e not in matching and any(ls.glob(f.replace('>', '*'), e) for f in forms):
+                matching.append(e)
+        groups = {}
+        for e in matching:
+            segs = e.split('/')
+            key = tuple(segs[:index])
+            if key not in groups or segs[index:] > groups[key]:
+                groups[key] = segs[index:]
+        return sorted('/'.join(list(k) + r) for k, r in groups.items())
+    def fs_oracle(self, cases, impl_out, ctx, unfold):
+        v = gen.vocab_from_ctx(ctx)
+        fails = []
+        groups = {}
+        for c, o in zip(cases, impl_out):
+            if c.stream == 'fsfind':
+                groups.setdefault((c.meta['u'], c.meta['q']), {})[c.meta['finder']] = (c, o)
+        for (u, q), d in sorted(groups.items()):
+            uo = unfold.get(q)
+            if uo is None or uo[0] != 'ok' or not uo[1] or not ls.plain(q) or len(d) < 4:
+                continue
+            if any(o[0] != 'ok' for _, o in d.values()):
+                if len(set(tuple(o[:2]) if o[0] != 'ok' else ('ok',) for _, o in d.values())) > 1:
+                    fails.append((d['all'][0], d['all'][1], 'finders do not fail alike on %r: %r' % (q, {k: o[:2] for k, (_, o) in d.items()})))
+                continue
+            utypes = set(x[1] for x in uo[1])
+            if not utypes <= self.with_path:
+                continue          # a level without path template: answered from constants (C11)
+            forms = [x[0] for x in uo[1]]
+            exp = self.expected(d['list'][0].args[0], forms)
+            if exp is None:
+                continue
+            for k in ('paths', 'all', 'list'):
+                got = sorted(d[k][1][1])
+                if got != exp or len(set(got)) != len(got):
+                    fails.append((d[k][0], d[k][1], "%s finder, find(%r): expected one greatest entry per group %r, got %r (entities %r)" % (k, q, exp, got, d['list'][0].args[0])))
+            one = d['all_one'][1][1]
+            allr = d['all'][1][1]
+            raw = d['all_raw'][1][1] if 'all_raw' in d and d['all_raw'][1][0] == 'ok' else None
+            if (one and one[0] not in allr) or (not one and allr) or (len(allr) == 1 and one != allr) or (raw is not None and one != raw[:1]):
+                fails.append((d['all_one'][0], d['all_one'][1], 'FindInAll.find_one(%r) = %r, find gives %r (first %r)' % (q, one, allr, raw[:1] if raw else raw)))
+        for c, o in zip(cases, impl_out):
+            if c.stream != 'get_last':
+                continue
+            if o[0] != 'ok':
+                fails.append((c, o, 'get_last raised %r' % (o,))); continue
+            e, i, Lst = c.meta['sid'], c.meta['pos'], c.meta['L']
+            segs = e.split('/')
+            qq = '/'.join(segs[:i] + ['>'] + segs[i + 1:])
+            exp = self.expected(Lst, [qq])
+            want = exp[0] if exp else ''
+            if o[1][0] != want:
+                fails.append((c, o, "Sid(%r).get_last(%r) = %r, the single answer of %r over the existing entities is %r" % (e, c.meta['key'], o[1][0], qq, want)))
+        return fails
     def oracle_bulk(self, cases, impl_out, ctx):
         unfold = {}
         for c, o in zip(cases, impl_out):
             if c.op == 'unfold':
                 unfold[c.args[0]] = o
-        fails = []
+        fails = self.fs_oracle(cases, impl_out, ctx, unfold)
         for c, o in zip(cases, impl_out):
-            if c.op != 'find_list':
+            if c.op != 'find_list' or c.stream != 'find':
                 continue
             items, q = c.args
             u = unfold.get(q)
@@ -81,9 +234,19 @@ class C09(PropBase):
             if sorted(o[1]) != exp or len(set(o[1])) != len(o[1]):
                 fails.append((c, o, "find(%r): expected one greatest entry per group %r, got %r" % (q, exp, sorted(o[1]))))
         return fails
+    def compare(self, case, model, impl):
+        if case.op == 'find_all_raw':
+            return None      # the order of enumeration is not modelled; used by the oracle only
+        if case.op == 'find_list' and case.stream == 'fsfind' and model[0] == 'ok' and impl[0] == 'ok':
+            return None if sorted(model[1]) == sorted(impl[1]) else 'find_list differs (as sets)'
+        return None if model == impl else 'model and implementation differ'
     def nontrivial(self, case, impl):
+        if case.stream in ('fsfind', 'get_last'):
+            return [case.op, case.args[-2:]] if impl[0] == 'ok' and impl[1] else None
         return case.args if case.op == 'find_list' and impl[0] == 'ok' and impl[1] else None
     def histogram_key(self, case, impl):
+        if case.stream in ('fsfind', 'get_last', 'setup'):
+            return '%s:%s' % (case.stream, case.meta.get('finder', case.op))
         if case.op == 'find_list':
             return 'find:%s' % ('raise' if impl[0] != 'ok' else min(len(impl[1]), 5))
         return case.op
